@@ -491,6 +491,19 @@ func (m *Model) funcValues(v ssa.Value, depth int) []*ssa.Function {
 			out = append(out, m.funcValues(e, depth+1)...)
 		}
 		return out
+	case *ssa.Call:
+		// a constructor of the callback: `filepath.Walk(dir, collect(dst))` — what the module function returns
+		sc := v.Call.StaticCallee()
+		if sc == nil || !m.InModule(sc) || sc.Blocks == nil || sc.Signature.Results().Len() != 1 {
+			return nil
+		}
+		var out []*ssa.Function
+		for _, b := range sc.Blocks {
+			if ret, ok := b.Instrs[len(b.Instrs)-1].(*ssa.Return); ok && len(ret.Results) == 1 {
+				out = append(out, m.funcValues(ret.Results[0], depth+1)...)
+			}
+		}
+		return out
 	}
 	return nil
 }
